@@ -2,7 +2,11 @@ package main
 
 import (
 	"fmt"
+	"html"
 	"strings"
+
+	tplhtml "code.gopub.tech/tpl/html"
+	"code.gopub.tech/tpl/types"
 )
 
 func init() { props["C03"] = propC03 }
@@ -11,8 +15,91 @@ func init() { props["C03"] = propC03 }
 // Native oracle (independent of the Lean specification): for a chain whose i-th condition is `${k_i() && x_i}` and
 // whose i-th body is `:text="${b_i()}"`, the expected output is the selected branch only and the expected call log
 // is k_1 … k_sel followed by b_sel.
+// c03Overlap: two executions of ONE template object whose lifetimes overlap (the second is started by a data function
+// called from the first, in the same or in another goroutine the first waits for) and which take DIFFERENT branches of the
+// same chains. What an execution remembers about the conditions of a chain is its own.
+func c03Overlap(c *ctx) {
+	res := c.res
+	src := `<p :if="${a}">A<b :text="${sub()}">o</b></p><p :elif="${b}">B<b :text="${sub()}">o</b></p><p :else>E<b :text="${sub()}">o</b></p>` +
+		`<ul><li :range="_, x : xs"><i :if="${x == sel}" :text="${sub()}">o</i><u :else :text="${x}">o</u></li></ul>`
+	render := func(t types.Template, a, b bool, sel int, sub func() string) (string, error) {
+		var sb strings.Builder
+		err := t.Execute(&sb, map[string]any{"a": a, "b": b, "sel": sel, "xs": []int{1, 2, 3}, "sub": sub})
+		return sb.String(), err
+	}
+	want := func(a, b bool, sel int, subOut string) string {
+		esc := html.EscapeString(subOut)
+		out := ""
+		switch {
+		case a:
+			out = "<p>A<b>" + esc + "</b></p>"
+		case b:
+			out = "<p>B<b>" + esc + "</b></p>"
+		default:
+			out = "<p>E<b>" + esc + "</b></p>"
+		}
+		out += "<ul>"
+		for x := 1; x <= 3; x++ {
+			if x == sel {
+				out += "<li><i>" + esc + "</i></li>"
+			} else {
+				out += fmt.Sprintf("<li><u>%d</u></li>", x)
+			}
+		}
+		return out + "</ul>"
+	}
+	for mask := 0; mask < 64; mask++ {
+		oa, ob, ia, ib := mask&1 != 0, mask&2 != 0, mask&4 != 0, mask&8 != 0
+		osel, isel := 1+(mask>>4)&1, 2+(mask>>5)&1
+		for _, viaGoroutine := range []bool{false, true} {
+			m := tplhtml.NewTplManager()
+			if err := m.Add("t", strings.NewReader(src)); err != nil {
+				res.SelfTest = append(res.SelfTest, "C03 overlap template does not load: "+err.Error())
+				return
+			}
+			t, _ := m.GetTemplate("t")
+			innerWant := want(ia, ib, isel, "leaf")
+			var innerGot []string
+			inner := func() string {
+				o, err := render(t, ia, ib, isel, func() string { return "leaf" })
+				if err != nil {
+					o += " ERR " + err.Error()
+				}
+				innerGot = append(innerGot, o)
+				return "in"
+			}
+			sub := inner
+			if viaGoroutine {
+				sub = func() string {
+					ch := make(chan string)
+					go func() { ch <- inner() }()
+					return <-ch
+				}
+			}
+			cs := J{"tpl": src, "outer": J{"a": oa, "b": ob, "sel": osel}, "inner": J{"a": ia, "b": ib, "sel": isel}, "inner_in_other_goroutine": viaGoroutine}
+			crumb("Template.Execute (overlapping executions of one object)", cs) // an execution that never comes back is reported by the watchdog
+			got, err := render(t, oa, ob, osel, sub)
+			crumbAt.Store(0)
+			res.eval("overlap|"+jstr(cs), true, cs)
+			res.S3Checked++
+			res.count("overlapping_chain_executions")
+			if err != nil || got != want(oa, ob, osel, "in") {
+				res.violate(cs, want(oa, ob, osel, "in"), J{"out": got, "err": fmt.Sprint(err)}, "an execution that overlaps another execution of the same template object renders another branch of a chain / two branches / none")
+				continue
+			}
+			for _, ig := range innerGot {
+				if ig != innerWant {
+					res.violate(cs, innerWant, ig, "an execution started while another execution of the same template object is inside a chain renders the wrong branch")
+					break
+				}
+			}
+		}
+	}
+}
+
 func propC03(c *ctx) error {
 	res := c.res
+	c03Overlap(c)
 	// a condition holds exactly when its value is the string "true": padded, re-cased or partial spellings select the
 	// else branch — as condition values written in the template and as strings coming from the data
 	for _, cv := range []string{" ${t}", "${t} ", " ${t} ", "${t}\n", "\n  ${t}\n", "true ", " true", "${pad}", "${tpad}", "${'true '}", "${st + ' '}", "TRUE", "True", "${up}", "tru", "truee", "${t}${t}", "${t} ${f}", "1", "${one}", "yes", "${nl}"} {
